@@ -214,6 +214,20 @@ def run_shard(spec, ctx):
             if bad:
                 continue
             ctx.distinct(case["model"], algo_name, n_sub, n_iter if algo_name != "scipy_minimize" else 0, nb if algo_name != "scipy_minimize" else 0, anneal)
+            # ---- scipy: the same call with 2 parallel workers returns the same aligned estimates -------------------------
+            if algo_name == "scipy_minimize" and n_sub >= 3 and budget is None and rng.random() < 0.2 and not case.get("algorithm_object_already_run_once"):
+                try:
+                    algo2 = algorithm_factory(AlgorithmSettings(algo_name, **dict(settings, n_jobs=2)))
+                    with contextlib.redirect_stdout(io.StringIO()):
+                        ip2 = algo2.run(model, ds)
+                    ctx.count("scipy_two_workers_compared")
+                    a1, a2 = ip.to_pytorch(), ip2.to_pytorch()
+                    if a1[0] != a2[0] or any(not torch.equal(a1[1][k_], a2[1][k_]) for k_ in a1[1]):
+                        ctx.violation("personalize/scipy/two-workers-differ-or-misaligned",
+                                      "scipy_minimize with n_jobs=2 does not return, subject by subject, what n_jobs=1 returns", case)
+                except Exception as e:
+                    ctx.count("scipy_two_workers_skipped")
+                    ctx.note(f"scipy_two_workers_skipped_{type(e).__name__}", str(e)[:160])
             # ---- scipy: non-worsening -----------------------------------------------------------------------
             if algo_name == "scipy_minimize":
                 if len(rec["scipy"]) != n_sub:
